@@ -117,10 +117,16 @@ def skeletons(fn, locs):
     return out
 
 
-def compute_mapping(cur_fn, ref_fn):
+def compute_mapping(cur_fn, ref_fn, sigs=None):
     lc, lr = local_names(cur_fn), local_names(ref_fn)
     if not lc or not lr:
         return {}
+    nf_votes = {}
+    try:
+        from . import normal
+        nf_votes = normal.nf_name_votes(cur_fn, ref_fn, sigs)
+    except Exception:
+        nf_votes = {}
     sc, sr = skeletons(cur_fn, lc), skeletons(ref_fn, lr)
     a = [x[0] for x in sc]
     b = [x[0] for x in sr]
@@ -134,6 +140,13 @@ def compute_mapping(cur_fn, ref_fn):
             for x, y in zip(nc, nr):
                 votes.setdefault(x, {}).setdefault(y, 0)
                 votes[x][y] += 1
+    for x, d in nf_votes.items():
+        if x not in lc:
+            continue
+        for y, c in d.items():
+            if y in lr:
+                votes.setdefault(x, {}).setdefault(y, 0)
+                votes[x][y] += 2 * c
     mapping = {}
     taken = {}
     cands = []
@@ -204,16 +217,19 @@ def apply_mapping(fn, mapping):
         fn.cy_locals = {mapping.get(k, k): v for k, v in fn.cy_locals.items()}
 
 
-def normalise_module(mod, ref_mod):
+def normalise_module(mod, ref_mod, sigs=None):
     """Rename locals of every function of `mod` that also exists in the
     reference module. Returns {qualname: mapping} of applied renames."""
+    from .core import _all_functions
     applied = {}
-    for q, fn in list(mod.functions.items()):
-        rf = ref_mod.functions.get(q)
-        if rf is None:
+    ref_fns = dict(_all_functions(ref_mod.tree))
+    for key, (fn, _h, _i) in _all_functions(mod.tree):
+        if key not in ref_fns:
             continue
+        rf = ref_fns[key][0]
+        q = key[0] if key[1] == 0 else '%s#%d' % key
         try:
-            m = compute_mapping(fn, rf)
+            m = compute_mapping(fn, rf, sigs)
         except RecursionError:
             continue
         if m:
